@@ -63,9 +63,9 @@ def repo_frame(err):
     for line in err.splitlines():
         m = re.match(r"\s*#\d+ 0x[0-9a-f]+ in (.*) (/\S+?):(\d+)(?::\d+)?\s*$", line)
         if m and m.group(2).startswith(src):
-            return "%s@%s" % (_simplify_sig(m.group(1)), os.path.basename(m.group(2)))
-    f = common.colvars_frame(err)
-    return f
+            # '.' instead of '::' because known_findings.txt uses '::' as its field separator
+            return "%s@%s" % (_simplify_sig(m.group(1)).replace("::", "."), os.path.basename(m.group(2)))
+    return common.colvars_frame(err).replace("::", ".")
 
 
 UBSAN_CHECKS = [
@@ -109,7 +109,7 @@ def crash_kind(r):
         return "out-of-memory"
     m = re.search(r"terminate called after throwing an instance of '([^']+)'", err)
     if m:
-        return "uncaught-" + m.group(1).replace("std::", "")
+        return "uncaught-" + m.group(1).replace("std::", "").replace("::", ".")
     m = re.search(r"ERROR: AddressSanitizer: (\S+)", err)
     if m:
         k = m.group(1)
@@ -121,7 +121,7 @@ def crash_kind(r):
         return "ubsan-" + ubsan_check(m.group(1))
     m = re.search(r"terminate called after throwing an instance of '([^']+)'", err)
     if m:
-        return "uncaught-" + m.group(1).replace("std::", "")
+        return "uncaught-" + m.group(1).replace("std::", "").replace("::", ".")
     if "terminate called" in err:
         return "uncaught-exception"
     if "libFuzzer: deadly signal" in err:
@@ -543,7 +543,7 @@ def part_damaged(chk, tier, cfgs, states):
                 # The same bytes through the fuzz target (no handler) give the throwing frame.
                 what = str(exc[0].get("what"))
                 kind = "uncaught-exception"
-                frame = re.sub(r"[\s\d]", "", re.split(r":\s", what)[0])[:40] or "?"
+                frame = re.sub(r"[\s\d]", "", re.split(r":\s", what)[0]).replace("::", ".")[:40] or "?"
                 msg = "C++ exception escapes the library: " + what
                 try:
                     fin = os.path.join(wd, "fz_" + it["id"])
@@ -1180,6 +1180,7 @@ def part_fuzz(chk, tier, cfgs, states):
 
 def do_replay(path):
     """re-run what a replay directory describes; prints the outcome, returns 0"""
+    path = os.path.abspath(path)
     vj = os.path.join(path, "violation.json")
     if not os.path.exists(vj):
         print("no violation.json in", path)
